@@ -394,7 +394,7 @@ func (enc *jsonEncoder) EncodeEntry(ent Entry, fields []Field) (*buffer.Buffer, 
 		}
 	}
 	if ent.Caller.Defined {
-		if final.CallerKey != "" {
+		if final.CallerKey != "" && final.EncodeCaller != nil {
 			final.addKey(final.CallerKey)
 			cur := final.buf.Len()
 			final.EncodeCaller(ent.Caller, final)
